@@ -39,7 +39,7 @@ type member struct {
 }
 
 type Member struct {
-	Outcome string `json:"outcome"` // ok | error | panic | block-ok | block-error
+	Outcome string `json:"outcome"` // ok | error | panic | block-ok | block-error | ctx-then-cleanup-error (Run returns ctx.Err() when told to stop, the Cleanup hook fails)
 	State   string `json:"state"`   // unstarted | running | finished | starting (orchestrator only: somebody's Start call is in flight)   (when it is handed over)
 	When    string `json:"when"`    // before | after   (the orchestrator / group starts)
 	Yield   int    `json:"yield"`
@@ -58,7 +58,7 @@ func goid() int {
 
 func mkMember(i int, m Member, clock *atomic.Int64) *member {
 	mm := &member{outcome: m.Outcome, gate: make(chan struct{})}
-	if m.Outcome == "error" || m.Outcome == "block-error" {
+	if m.Outcome == "error" || m.Outcome == "block-error" || m.Outcome == "ctx-then-cleanup-error" {
 		mm.err = fmt.Errorf("member %d failed", i)
 	}
 	mm.svc = &srv.Service{
@@ -72,10 +72,23 @@ func mkMember(i int, m Member, clock *atomic.Int64) *member {
 			case "block-ok", "block-error":
 				<-ctx.Done()
 				mm.ctxEnded.Store(clock.Add(1))
+			case "ctx-then-cleanup-error":
+				// Run only reports that it was told to stop; the real
+				// failure comes from the Cleanup hook
+				<-ctx.Done()
+				mm.ctxEnded.Store(clock.Add(1))
+				return ctx.Err()
 			}
 			return mm.err
 		},
-		Cleanup: func() error { vkit.Yield(m.Yield); mm.done.Store(true); return nil },
+		Cleanup: func() error {
+			vkit.Yield(m.Yield)
+			mm.done.Store(true)
+			if m.Outcome == "ctx-then-cleanup-error" {
+				return mm.err
+			}
+			return nil
+		},
 	}
 	return mm
 }
@@ -226,7 +239,7 @@ func runOrch(c *orchCase) (string, string) {
 	// the orchestrator has to await them
 	anyOwn := false
 	for i, m := range c.Members {
-		if accepted[i] && (m.State == "running" || m.State == "starting") && (m.Outcome == "block-ok" || m.Outcome == "block-error") {
+		if accepted[i] && (m.State == "running" || m.State == "starting") && (m.Outcome == "block-ok" || m.Outcome == "block-error" || m.Outcome == "ctx-then-cleanup-error") {
 			anyOwn = true
 		}
 	}
@@ -268,7 +281,7 @@ func runOrch(c *orchCase) (string, string) {
 
 func genMember(t *rapid.T) Member {
 	return Member{
-		Outcome: rapid.SampledFrom([]string{"ok", "error", "panic", "block-ok", "block-error"}).Draw(t, "outcome"),
+		Outcome: rapid.SampledFrom([]string{"ok", "error", "panic", "block-ok", "block-error", "ctx-then-cleanup-error"}).Draw(t, "outcome"),
 		State:   rapid.SampledFrom([]string{"unstarted", "unstarted", "running", "finished"}).Draw(t, "state"),
 		When:    rapid.SampledFrom([]string{"before", "after"}).Draw(t, "when"),
 		Yield:   rapid.IntRange(0, 4).Draw(t, "yield"),
@@ -488,7 +501,7 @@ func TestGroup(t *testing.T) {
 		nonOK := false
 		for i := 0; i < n; i++ {
 			m := genMember(t)
-			if (m.Outcome == "block-ok" || m.Outcome == "block-error") && vkit.Known("C11:group/member-cancelled") {
+			if (m.Outcome == "block-ok" || m.Outcome == "block-error" || m.Outcome == "ctx-then-cleanup-error") && vkit.Known("C11:group/member-cancelled") {
 				vkit.Excluded(tGroup, "C11:group/member-cancelled")
 				m.Outcome = "ok"
 			}
@@ -516,6 +529,11 @@ type poolCase struct {
 	Jobs      []string `json:"jobs"`   // ok | error | panic
 	Early     int      `json:"early"`  // jobs added before the service starts
 	Ending    string   `json:"ending"` // close | cancel
+	// CleanupTimeout (Cleanup only): 0 (no limit) or a limit far longer
+	// than any case runs.  Negative values are not generated: the
+	// documentation ("when non-zero") and the code (timeout > 0) disagree
+	// about them and the property does not settle it.
+	CleanupTimeout time.Duration `json:"cleanup_timeout,omitempty"`
 	// Racing: that many producers keep adding further (succeeding) jobs
 	// while the service is told to end, until the queue refuses them
 	Racing int   `json:"racing_producers,omitempty"`
@@ -579,7 +597,7 @@ func runPool(c *poolCase) (string, string) {
 			}
 		}, opts...)
 	default:
-		s = srv.Cleanup(q, 0)
+		s = srv.Cleanup(q, c.CleanupTimeout)
 	}
 	addJob := func(i int) {
 		if q.Add(job(i)) == nil {
@@ -746,6 +764,9 @@ func TestPools(t *testing.T) {
 			}
 		}
 		c.Early = rapid.IntRange(0, len(c.Jobs)).Draw(t, "early")
+		if c.Kind == "Cleanup" && rapid.Bool().Draw(t, "cleanupTimeout") {
+			c.CleanupTimeout = time.Minute
+		}
 		if rapid.IntRange(0, 2).Draw(t, "racing") == 0 {
 			c.Racing = rapid.IntRange(1, 4).Draw(t, "racingProducers")
 		}
